@@ -8,9 +8,14 @@ require (
 	github.com/cuteLittleDevil/go-jt808/service v0.0.0
 	github.com/cuteLittleDevil/go-jt808/shared v1.5.0
 	github.com/cuteLittleDevil/go-jt808/terminal v0.0.0
+	golang.org/x/tools v0.29.0
 )
 
-require golang.org/x/text v0.21.0 // indirect
+require (
+	golang.org/x/mod v0.22.0 // indirect
+	golang.org/x/sync v0.10.0 // indirect
+	golang.org/x/text v0.21.0 // indirect
+)
 
 replace (
 	github.com/cuteLittleDevil/go-jt808/attachment => /repo/attachment
